@@ -1,11 +1,11 @@
-/* C19 observation (API edge, not repaired): arena_realloc with new_size <= old_size
- * returns the pointer unchanged and never looks at the scope it is given
- * ("Always allow existing allocations to shrink").  Shrinking a block that was
- * allocated in an INNER scope through an OUTER scope is therefore not detected,
- * although the caller now believes the block lives as long as the outer scope:
- * when the inner scope leaves, the same bytes are handed out again.
- * (Growing through the outer scope traps, see D11_realloc_outer.c.)
- * Coq: Properties_C19.v C19_shrink_is_silent, C19_outer_shrink_undetected;
+/* C19 (fixed in /repo 4eb1227): arena_realloc with new_size <= old_size returned the pointer
+ * unchanged without looking at the scope it was given ("Always allow existing allocations to
+ * shrink").  Shrinking a block that was allocated in an INNER scope through an OUTER scope was
+ * therefore not detected, although the caller then believes the block lives as long as the outer
+ * scope: when the inner scope left, the same bytes were handed out again.
+ * (Growing through the outer scope traps since 08bdded, see D11_realloc_outer.c.)
+ * Write-up: findings/C19_outer_shrink.md; Coq: C19_outer_use_dichotomy, C19_outer_shrink_damage,
+ * C19_outer_alloc_detected, C19_outer_shrink_traps_example;
  * replay on the real code: bin/check C19 --replay corpus/C19/outer_shrink_undetected.json
  * build: cc -I$REPO C19_outer_shrink.c $REPO/libks/arena.c $REPO/libks/arithmetic.c
  * exit 0 = detected (trap), 1 = silent overlap */
